@@ -396,8 +396,8 @@ theorem C08_excavate_model_sound (env : Env) (e : Expr) (h : eval env e ≠ .err
 /-- with the constructor that rewrites every new node by the proven rule table (as `make_like(simplify=True)` / `claripy.If` do):
 C01's rule soundness discharges the constructor hypothesis -/
 theorem C08_excavate_rules_sound (env : Env) (e : Expr) (h : eval env e ≠ .err) :
-    eval env (excavate mkRules mkNot e) = eval env e :=
-  excavate_sound _ _ mkSound_rules notSound_mkNot env e h
+    eval env (excavate mkRules mkNotR e) = eval env e :=
+  excavate_sound _ _ mkSound_rules notSound_mkNotR env e h
 
 /-- **C08 (burrow_ite)**: the model of `_burrow_ite` (with the guard of the repaired code: the inner `If` is built only over
 operands of one sort and size) preserves the value of every well-typed expression, for every recursion budget. -/
